@@ -71,7 +71,16 @@ func substParams(expr string, callee *ssa.Function, c *ssa.CallCommon) string {
 			id := expr[i:j]
 			sel := i > 0 && expr[i-1] == '.'
 			call := j < len(expr) && expr[j] == '('
-			colon := i > 0 && expr[i-1] == ':' // &heap:name / &local:name
+			// &heap:name, free:name, func:name, closure:name, dyn:name denote objects, not parameters; the ':' of a
+			// slice expression x[lo:hi] does not
+			colon := false
+			if i > 0 && expr[i-1] == ':' {
+				for _, pre := range []string{"heap:", "free:", "func:", "closure:", "dyn:", "local:"} {
+					if strings.HasSuffix(expr[:i], pre) && (i == len(pre) || !isIdentChar(expr[i-len(pre)-1])) {
+						colon = true
+					}
+				}
+			}
 			if r, ok := repl[id]; ok && !sel && !call && !colon {
 				b.WriteString(r)
 			} else {
